@@ -294,3 +294,92 @@ func (c *fnCtx) evalLoopTerm(e *Expr, li *loopInfo, env *loopEnv) (res string) {
 	defer func() { c.st = saved }()
 	return ev.evalInt(e)
 }
+
+// localLookup resolves a source-level variable name at the current program point: parameters, the closest
+// dominating phi or debug reference, or an address-taken local.
+func (c *fnCtx) localLookup(cur ssa.Instruction) func(name string) (tv, bool) {
+	f := c.f
+	return func(name string) (tv, bool) {
+		blk := cur.Block()
+		first := true
+		for b := blk; b != nil; b = b.Idom() {
+			var best ssa.Value
+			for _, in := range b.Instrs {
+				if first && in == cur {
+					break
+				}
+				switch x := in.(type) {
+				case *ssa.Phi:
+					if x.Comment == name {
+						best = x
+					}
+				case *ssa.DebugRef:
+					if id, ok := x.Expr.(*ast.Ident); ok && id.Name == name && !x.IsAddr {
+						best = x.X
+					}
+				}
+			}
+			first = false
+			if best != nil {
+				return tv{v: c.val(best), t: best.Type()}, true
+			}
+		}
+		for i, p := range f.Params {
+			if p.Name() == name && i < len(c.params) {
+				return tv{v: c.params[i], t: p.Type()}, true
+			}
+		}
+		for _, b := range f.Blocks {
+			for _, in := range b.Instrs {
+				if a, ok := in.(*ssa.Alloc); ok && a.Comment == name {
+					if pv, ok := c.vals[a]; ok {
+						el := a.Type().Underlying().(*types.Pointer).Elem()
+						return tv{v: c.load(pv, el), t: el}, true
+					}
+				}
+			}
+		}
+		return tv{}, false
+	}
+}
+
+// anchoredAsserts evaluates the contract's "at <callee> <n>: assert e" clauses for the call being translated.
+func (c *fnCtx) anchoredAsserts(in ssa.Instruction, name string, cc *ssa.CallCommon, args []*Val) {
+	if c.ct == nil || len(c.ct.Asserts) == 0 || c.mute {
+		return
+	}
+	if c.callOrd == nil {
+		c.callOrd = map[string]int{}
+	}
+	ord := c.callOrd[name]
+	c.callOrd[name] = ord + 1
+	for ai, as := range c.ct.Asserts {
+		if as.Callee != name || as.Ord != ord {
+			continue
+		}
+		local := c.localLookup(in)
+		lk := func(n string) (tv, bool) {
+			if strings.HasPrefix(n, "arg") {
+				var k int
+				if _, err := fmt.Sscanf(n, "arg%d", &k); err == nil && k < len(args) && k < len(cc.Args) {
+					return tv{v: args[k], t: cc.Args[k].Type()}, true
+				}
+			}
+			return local(n)
+		}
+		ev := &evalEnv{c: c, lookup: lk, st: c.st, old: c.entry, bound: map[string]tv{}, pkg: c.pkgOf(c.f)}
+		f, err := c.safeEval(ev, as.Expr)
+		if err != nil {
+			c.eng.engineError(fmt.Errorf("%s at %s %d: %v", c.fnName(), name, ord, err))
+			continue
+		}
+		if as.Assume {
+			c.em.assert("(=> " + c.reach[c.curB] + " " + f + ")")
+			continue
+		}
+		o := &Obl{Class: "assert", Fn: c.fnName(), Pos: c.eng.prog.Fset.Position(in.Pos()), Text: as.Expr.Src, Guard: c.reach[c.curB], Cond: f}
+		o.Name = fmt.Sprintf("%s#assert:%s%d:%s", o.Fn, name, ord, shortText(fmt.Sprintf("a%d %s", ai, as.Expr.Src)))
+		c.obls = append(c.obls, o)
+		c.assertHit[ai] = true
+	}
+}
